@@ -120,16 +120,19 @@ def run_parse(fn):
 
 
 class Base(Harness):
-    def setup_packet(self, ctx, w, enc_name, off=3, ctx_param=True):
+    def setup_packet(self, ctx, w, enc_name, off=3, ctx_param=True, tag="", ctx_float=False):
         lib = self.lib
         nbytes = (off + w + 7) // 8 + 1
-        buf = bv.fresh_bytes("B", nbytes)
+        buf = bv.fresh_bytes("B" + tag, nbytes)
         packet = lib.packets.CCSDSPacket(raw_data=buf)
         packet.raw_data.pos = off
-        c = z3.BitVec("ctxp", bv.W)
+        c = z3.BitVec("ctxp" + tag, bv.W)
         ctx.assume(z3.And(c >= -8, c <= 8))
         if ctx_param:
-            packet["CTX"] = lib.common.IntParameter(bv.SymInt(c, nb=4))
+            if ctx_float:      # the context parameter is a calibrated (float) value that happens to be integral
+                packet["CTX"] = lib.common.FloatParameter(bv.SymReal(bv.bv2real(c, 5)), lib.common.IntParameter(bv.SymInt(c, nb=4)))
+            else:
+                packet["CTX"] = lib.common.IntParameter(bv.SymInt(c, nb=4))
         return buf, packet, c
 
     def common_obligations(self, v, raw_term, cls_expected, obl):
@@ -243,12 +246,20 @@ class ContextH(Base):
         enc = lib.encodings.IntegerDataEncoding(w, enc_name, default_calibrator=mkcal(lib, CALS[default]) if default is not None else None,
                                                 context_calibrators=ccs or None)
         pt = lib.parameter_types.IntegerParameterType("T", enc)
-        buf, packet, c = self.setup_packet(ctx, w, enc_name)
+        return self.rounds(ctx, pt, entries, default, w, enc_name, cfg % len(CONTEXTS))
+
+    def rounds(self, ctx, pt, entries, default, w, enc_name, ci):
+        cls, obl, obs, inputs = self.one(ctx, pt, entries, default, w, enc_name, "", False)
+        inputs["cfg"] = ci
+        return result(cls, obl, observe=obs, inputs=inputs)
+
+    def one(self, ctx, pt, entries, default, w, enc_name, tag, ctx_float):
+        buf, packet, c = self.setup_packet(ctx, w, enc_name, tag=tag, ctx_float=ctx_float)
         v, exc = run_parse(lambda: pt.parse_value(packet))
         raw = raw_spec(buf, 3, w, enc_name)
-        inputs = {"buf": buf, "w": w, "enc": enc_name, "cfg": cfg % len(CONTEXTS), "ctxp": bv.SymInt(c)}
+        inputs = {"buf" + tag: buf, "w": w, "enc": enc_name, "ctxp" + tag: bv.SymInt(c)}
         if exc is not None:
-            return result("exc:" + exc, [("context calibration raises nothing", False)], observe={"exc": exc, "cls": "ran"}, inputs=inputs)
+            return "exc:" + exc, [("context calibration raises nothing", False)], {"exc": exc, "cls": "ran"}, inputs
         obl = []
         x = bv.bv2real(raw, w)
 
@@ -274,7 +285,27 @@ class ContextH(Base):
             obl.append(("uncalibrated only if no context holds and there is no default", z3.And(none, z3.BoolVal(default is None))))
             obl.append(("uncalibrated value is the raw value", (v.t == raw) if isinstance(v, bv.SymInt) else False))
             cls = "raw"
-        return result(cls, obl, observe={"value": v, "raw": rv, "exc": None, "cls": "ran", "class": type(v).__name__}, inputs=inputs)
+        return cls, obl, {"value": v, "raw": rv, "exc": None, "cls": "ran", "class": type(v).__name__}, inputs
+
+
+class ContextTwiceH(ContextH):
+    """the SAME parameter type object decodes two packets in a row; the context parameter is an integer in one and a calibrated (float,
+    integral) value in the other: each result must be the one its own packet's context selects"""
+    kind = "context2"
+
+    def rounds(self, ctx, pt, entries, default, w, enc_name, ci):
+        order = ctx.choose("order", 2)
+        classes, obl, obs, inputs = [], [], {"cls": "ran"}, {"cfg": ci, "order": order}
+        for n in (0, 1):
+            fl = bool(n) == bool(order)
+            cls, o, ob, inp = self.one(ctx, pt, entries, default, w, enc_name, str(n + 1), fl)
+            classes.append(cls)
+            obl += [(f"packet {n + 1} ({'float' if fl else 'integer'} context): {lab}", g) for lab, g in o]
+            for k, v in ob.items():
+                if k != "cls":
+                    obs[f"{k}{n + 1}"] = v
+            inputs.update(inp)
+        return result("/".join(classes), obl, observe=obs, inputs=inputs)
 
 
 ENUMS = [{0: "ZERO", 1: "ONE", 5: "FIVE"}, {-1: "NEG", 0: "OFF", 127: "MAX"}, {3: "ONLY"}]
@@ -342,7 +373,7 @@ class Twin(SplineH):
 
 def make(job):
     lib = bv.install(96)
-    h = {"spline": SplineH, "poly": PolyH, "context": ContextH, "enumbool": EnumBoolH, "twin": Twin}[job["h"]](job)
+    h = {"context2": ContextTwiceH, "spline": SplineH, "poly": PolyH, "context": ContextH, "enumbool": EnumBoolH, "twin": Twin}[job["h"]](job)
     h.lib = lib
     if job["h"] == "enumbool":
         orig = h.run
@@ -359,6 +390,7 @@ def jobs(tier):
         {"name": "spline", "h": "spline", "params": {"nfields": nf}, "split": 32, "chunk": 40, "must_reach": ["calibrated", "exc:CalibrationError"]},
         {"name": "poly", "h": "poly", "params": {"nfields": nf}, "split": 16, "chunk": 40, "must_reach": ["calibrated"]},
         {"name": "context", "h": "context", "params": {"nfields": nf}, "split": 16, "chunk": 40, "must_reach": ["calibrated", "raw"]},
+        {"name": "context-twice", "h": "context2", "params": {"nfields": min(nf, 2)}, "split": 16, "chunk": 40, "must_reach": ["calibrated/raw", "raw/calibrated"]},
         {"name": "enumbool", "h": "enumbool", "params": {"nfields": nf}, "split": 16, "chunk": 40, "must_reach": ["label", "bool", "exc:ValueError"]},
     ]
 
@@ -381,7 +413,7 @@ def _build(i, kind):
     if kind == "poly":
         cal = K.PolynomialCalibrator([K.PolynomialCoefficient(a, e) for a, e in i["coeffs"]])
         return parameter_types.IntegerParameterType("T", encodings.IntegerDataEncoding(i["w"], i["enc"], default_calibrator=cal))
-    if kind == "context":
+    if kind in ("context", "context2"):
         entries, default = CONTEXTS[i["cfg"]]
         ccs = [K.ContextCalibrator([C.Comparison(lit, p, operator=op, use_calibrated_value=cal) for p, op, lit, cal in crit], mk(CALS[ci])) for crit, ci in entries]
         return parameter_types.IntegerParameterType("T", encodings.IntegerDataEncoding(
@@ -399,6 +431,22 @@ def concrete(req):
     from spv.obs import dec
     i = dec(req["input"])
     pt = _build(i, req["kind"])
+    if req["kind"] == "context2":
+        out = {"cls": "ran"}
+        for n in (1, 2):
+            pkt = packets.CCSDSPacket(raw_data=i[f"buf{n}"])
+            pkt.raw_data.pos = 3
+            c = i[f"ctxp{n}"]
+            pkt["CTX"] = common.FloatParameter(float(c), common.IntParameter(c)) if (n == 2) == bool(i["order"]) else common.IntParameter(c)
+            with warnings.catch_warnings():
+                warnings.simplefilter("ignore")
+                try:
+                    v = pt.parse_value(pkt)
+                    out.update({f"exc{n}": None, f"value{n}": enc_concrete(float(v) if isinstance(v, float) else int(v)), f"raw{n}": enc_concrete(v.raw_value),
+                                f"class{n}": type(v).__name__})
+                except Exception as e:   # noqa: BLE001
+                    out[f"exc{n}"] = type(e).__name__
+        return out
     pkt = packets.CCSDSPacket(raw_data=i["buf"])
     pkt.raw_data.pos = 3
     if "ctxp" in i:
@@ -459,6 +507,18 @@ def judge(req, got):
         return "error", str(got)[:300]
     from spv.obs import dec
     i, kind = dec(req["input"]), req["kind"]
+    if kind == "context2":
+        bad = []
+        for n in (1, 2):
+            sub = {"kind": "context", "input": dict(req["input"], buf=req["input"][f"buf{n}"], ctxp=req["input"][f"ctxp{n}"])}
+            g = {"cls": "ran", "exc": got.get(f"exc{n}"), "value": got.get(f"value{n}"), "raw": got.get(f"raw{n}"), "class": got.get(f"class{n}")}
+            verdict, why = judge(sub, g)
+            if verdict == "reproduced":
+                fl = (n == 2) == bool(i["order"])
+                bad.append(f"packet {n} ({'float' if fl else 'integer'} context parameter): {why}")
+        if bad:
+            return "reproduced", "one parameter type object decoding two packets in a row: " + "; ".join(bad)
+        return "not-reproduced", "agrees"
     r = _raw(i)
     desc = f"{kind} field {i['w']}-bit {i['enc']} raw={r}"
 
